@@ -114,6 +114,16 @@ impl Message<Block> for Blocker {
 fn cfg_child(arg: &str) {
     let mut out = vec![];
     for n in arg.split(',').filter(|x| !x.is_empty()) {
+        if n == "s" {
+            // an actor spawned (and dropped) before / between the configuration calls
+            let rt = tokio::runtime::Builder::new_current_thread().enable_time().build().unwrap();
+            rt.block_on(async {
+                let (r, jh) = rsactor::spawn::<Blocker>(());
+                let _ = r.kill();
+                let _ = jh.await;
+            });
+            continue;
+        }
         let n: usize = n.parse().unwrap();
         out.push(match rsactor::set_default_mailbox_capacity(n) {
             Ok(()) => "ok".to_string(),
@@ -295,6 +305,21 @@ fn main() {
             oracle.push((format!("tables cfg {}", if hist.is_empty() { "-" } else { hist }), format!("{};cap={}", outs.join(","), cell.unwrap_or(32)), "C09 once-only non-zero default, else 32"));
         }
     }
+    // --- the same with actors spawned before or between the calls: spawn() reads the default when it runs
+    let mut oracle_only: Vec<(String, String)> = vec![];
+    for hist in ["s,5", "s,0,4", "3,s,9", "s", "s,s,2", "0,s,6"] {
+        let out = Command::new(&exe).args(["--cfg-child", hist]).output().expect("cfg child");
+        let text = String::from_utf8_lossy(&out.stdout).trim().to_string();
+        let key = format!("tables cfgspawn {hist}");
+        oracle_only.push((key.clone(), text));
+        let mut cell: Option<usize> = None;
+        let mut outs = vec![];
+        for n in hist.split(',').filter(|x| !x.is_empty() && *x != "s") {
+            let n: usize = n.parse().unwrap();
+            if n > 0 && cell.is_none() { cell = Some(n); outs.push("ok") } else { outs.push("MailboxCapacity") }
+        }
+        oracle.push((key, format!("{};cap={}", outs.join(","), cell.unwrap_or(32)), "C09 the configured default applies to every later spawn(), whether or not actors were spawned before the call"));
+    }
     // --- spawn with capacity 0 is rejected (panics), 1 is accepted
     for cap in [0usize, 1, 2] {
         let rt = tokio::runtime::Builder::new_current_thread().build().unwrap();
@@ -334,7 +359,7 @@ fn main() {
     }
     let mut oracle_fails = vec![];
     {
-        let real: std::collections::HashMap<&str, &str> = cases.iter().map(|(a, b)| (a.as_str(), b.as_str())).collect();
+        let real: std::collections::HashMap<&str, &str> = cases.iter().chain(oracle_only.iter()).map(|(a, b)| (a.as_str(), b.as_str())).collect();
         for (inp, exp, what) in &oracle {
             let r = real.get(inp.as_str()).copied().unwrap_or("<missing>");
             if r != exp {
